@@ -98,7 +98,7 @@ def run_unit(unit, seed=None, rlimit=None, canary_for=None, extra_tag="", num_th
     with open(gen, "w") as f:
         f.write(text)
     res.gen_path = gen
-    cmd = ["verus", gen, "--output-json", "--time-expanded", "--error-format=json", "--multiple-errors", "20"]
+    cmd = ["verus", gen, "--output-json", "--time-expanded", "--error-format=json", "--multiple-errors", "5"]
     if rlimit:
         cmd += ["--rlimit", str(rlimit)]
     if seed is not None:
